@@ -60,8 +60,13 @@ def dec_path(s):
     return "<%s as minicbor::decode::Decode<'bytes, Ctx>>::decode" % tyname(s)
 
 
+def custom_nil(f):
+    """the field's nil-ness is defined by its codec (every spelling of encode_with + is_nil / decode_with + nil, with + has_nil)"""
+    return bool(f['codec']) and f['codec'].startswith('custom_nil')
+
+
 def is_optional(f):
-    return f['ty'].startswith('Option<') or f['codec'] in ('custom_nil', 'custom_nil_opt') or bool(f.get('nilable'))
+    return f['ty'].startswith('Option<') or custom_nil(f) or bool(f.get('nilable'))
 
 
 def core_ty(ty):
@@ -132,7 +137,7 @@ def ref_fields(fields, enc, present, d5=False):
         elif d5 and f is not None and f['tag'] is not None:
             toks.append(('TAG', f['tag']))
             toks.append(('NULL',))
-        elif f is not None and (f['codec'] in ('custom_nil', 'custom_nil_opt') or f.get('_generic')):
+        elif f is not None and (custom_nil(f) or f.get('_generic')):
             # a nil value of a type with an opaque is_nil/encode pair: the slot holds whatever that type writes for nil
             toks.append(('NULL_OR_VAL', f))
         else:
@@ -251,7 +256,7 @@ def leaf_kind_ok(f, items):
         return True       # a None inside a wrapper that is not itself nil: written as an explicit null
     if f['codec'] == 'bytes':
         return k == 'BYTES' or (k == 'ENC')
-    if f['codec'] in ('custom', 'custom_nil', 'custom_nil_opt'):
+    if f['codec'] == 'custom' or custom_nil(f):
         return k == 'ENC' and str(first[1]).startswith('custom:')
     if ty in INT_T:
         return k == 'INT' and first[1] == ty
@@ -348,7 +353,7 @@ def presence_of(st, fields, generics=()):
         if f['skip']:
             continue
         fk = field_key(f, None)
-        if f['codec'] in ('custom_nil', 'custom_nil_opt') or f['ty'] in generics:
+        if custom_nil(f) or f['ty'] in generics:
             # custom is_nil / generic parameter: nil-ness is whatever is_nil says
             v = kn.get('is_nil(self*.%s)' % fk)
             res[f['name']] = None if v is None else (v == 0)
